@@ -80,6 +80,8 @@ def battery(pid, verbose=True):
                 apply_edit(d, e)
             if m.get("patch"):
                 apply_patch(d, os.path.join(facts.VERIF, m["patch"]))
+            for e in m.get("post_edits", []):       # edits of the refactored text
+                apply_edit(d, e)
             rc, out = run_check(pid, d)
         except facts.AnalysisBroken as e:
             rc, out = 2, str(e)
